@@ -118,7 +118,8 @@ def do_minimise(trace_path, out_path, max_exec=400):
     with open(trace_path) as f:
         trace = json.load(f)
     eng = engine_for(trace["property"])
-    small, executions = minimise.minimise(eng, trace, max_exec=max_exec)
+    small, executions = minimise.minimise(eng, trace, max_exec=max_exec,
+                                          wall_s=float(os.environ.get("DSW_VERIF_MINIMISE_WALL", "300")))
     small["minimised"] = True
     small["original_ops"] = len(trace["ops"])
     small["minimise_executions"] = executions
